@@ -116,6 +116,9 @@ def run_verus_part():
     if st == 'inconclusive':
         out['inconclusive'] = why
         return out
+    if fails:
+        fails, dropped, notes = common.confirm_failures_in_isolation(path, res, fails)
+        out['unstable_dropped'] = notes
     for f in fails:
         name, pick, clause = loc.name_failure(f)
         out['failures'].append({'obligation': name, 'container': pick[0], 'fn': pick[1], 'kind': f['kind'], 'clause': clause,
